@@ -66,9 +66,9 @@ def features(s):
 def classify(component, what, case):
     law, feat = case.get("law"), set(case.get("features", []))
     if law in ("iff-rejected", "tag") and case.get("impl_kind") == "NoUniq" and "unique-default-below-case-or-presence" in feat:
-        return "F60"
+        return "F175"
     if law == "route-path" and case.get("route") in ("xml", "json") and case.get("unlinked"):
-        return "F61"
+        return "F176"
     return None
 
 
